@@ -312,8 +312,9 @@ def _itp_text(spec, comments=True):
     return "\n".join(out) + "\n"
 
 
-def gro_atom_lines(spec, positions, first_resid, first_atomid, velocities=None):
-    """Fixed-width atom lines of one molecule instance; residue numbers first_resid, first_resid+1, ... per residue."""
+def gro_atom_lines(spec, positions, first_resid, first_atomid, velocities=None, resid_list=None):
+    """Fixed-width atom lines of one molecule instance; residue numbers first_resid, first_resid+1, ... per residue (or the
+    numbers of `resid_list`, one per residue: numbering with gaps)."""
     lines = []
     r = -1
     prev = None
@@ -321,7 +322,8 @@ def gro_atom_lines(spec, positions, first_resid, first_atomid, velocities=None):
         if (rn, ri) != prev:
             r += 1
             prev = (rn, ri)
-        l = "%5d%-5s%5s%5d%8.3f%8.3f%8.3f" % ((first_resid + r) % 100000, rn, an, (first_atomid + i) % 100000,
+        l = "%5d%-5s%5s%5d%8.3f%8.3f%8.3f" % ((first_resid + r if resid_list is None else resid_list[r]) % 100000, rn, an,
+                                             (first_atomid + i) % 100000,
                                              positions[i][0], positions[i][1], positions[i][2])
         if velocities is not None:
             l += "%8.4f%8.4f%8.4f" % tuple(velocities[i])
